@@ -48,6 +48,7 @@ type Proc struct {
 	mu     sync.Mutex
 	N      int
 	dead   bool
+	noWait bool // the process is reaped by somebody else (ptrace supervisor)
 }
 
 // Start launches lsdriver directly.
@@ -73,7 +74,7 @@ func StartCmd(c *exec.Cmd) (*Proc, error) {
 
 // Attach wraps already-created pipes (used by the ptrace supervisor, which starts the process itself).
 func Attach(c *exec.Cmd, in io.WriteCloser, out io.Reader, stderr *bytes.Buffer) *Proc {
-	return &Proc{Cmd: c, in: in, out: bufio.NewReaderSize(out, 1<<16), stderr: stderr}
+	return &Proc{Cmd: c, in: in, out: bufio.NewReaderSize(out, 1<<16), stderr: stderr, noWait: true}
 }
 
 // Send writes one command without waiting for the answer.
@@ -123,7 +124,9 @@ func (p *Proc) Wait() Reply {
 		if err != nil {
 			p.dead = true
 			r.Crashed = true
-			_ = p.Cmd.Wait()
+			if !p.noWait {
+				_ = p.Cmd.Wait()
+			}
 			s := p.stderr.String()
 			if len(s) > 3000 {
 				s = s[:1500] + "\n...\n" + s[len(s)-1500:]
@@ -141,7 +144,9 @@ func (p *Proc) Do(c any) Reply {
 	}
 	if err := p.Send(c); err != nil {
 		p.dead = true
-		_ = p.Cmd.Wait()
+		if !p.noWait {
+			_ = p.Cmd.Wait()
+		}
 		return Reply{Crashed: true, Stderr: fmt.Sprintf("write to child: %v; stderr: %s", err, p.stderr.String())}
 	}
 	return p.Wait()
@@ -156,7 +161,9 @@ func (p *Proc) Kill() {
 		_ = p.Cmd.Process.Kill()
 	}
 	_ = p.in.Close()
-	_ = p.Cmd.Wait()
+	if !p.noWait {
+		_ = p.Cmd.Wait()
+	}
 	p.dead = true
 }
 
@@ -174,6 +181,8 @@ func (p *Proc) Close() {
 	}
 	_ = p.Send(map[string]string{"op": "exit"})
 	_ = p.in.Close()
-	_ = p.Cmd.Wait()
+	if !p.noWait {
+		_ = p.Cmd.Wait()
+	}
 	p.dead = true
 }
